@@ -136,7 +136,7 @@ def make_table_forecaster():
             self._n_epoch = len(y)
             LOG.setdefault(self.tag, []).append(
                 {"ev": "fit", "table": list(self.table), "first": int(y.index[0]) - self.origin,
-                 "last": int(y.index[-1]) - self.origin})
+                 "last": int(y.index[-1]) - self.origin, "x": None if X is None else [int(i) - self.origin for i in X.index]})
             self._is_fitted = True
             return self
 
